@@ -252,7 +252,7 @@ def shapes_for(order, rng, big=False):
 
 
 def gen_configs(tier, rng):
-    nrep = 1 if tier == "quick" else 8
+    nrep = 1 if tier == "quick" else 6
     caps = [0, 1, 2, 3, 6]
     for rep in range(nrep):
         for klass in CLASSES:
@@ -773,7 +773,7 @@ def run(chk):
     chk.cov["stages"] = stages
     chk.cov["exhaustive"] = False
     chk.cov["rule"] = ("part A: corpus (witnesses of the four repaired defects) + 8 data classes {signed, non-negative, all-negative, sparse, sparse non-negative, integer, "
-                       "signed generalized permutation, low-rank} x orders 2-4 (dims 2-4, thorough 2-5, x8 repetitions) x {svd, random, entrywise non-negative user init with zero columns / "
+                       "signed generalized permutation, low-rank} x orders 2-4 (dims 2-4, thorough 2-5, x6 repetitions) x {svd, random, entrywise non-negative user init with zero columns / "
                        "non-unit weights} x caps {0,1,2,3,6} for non_negative_parafac, non_negative_parafac_hals (nn_modes all/None/subsets, sparsity, exact, fixed modes), non_negative_tucker, "
                        "non_negative_tucker_hals (fista / active_set, sparsity, fixed modes), constrained_parafac(non_negative = True / mode dict, inner caps 1/3/10), parafac2 (tensor or ragged "
                        "slices, nn_modes incl. 'all', line search on/off, caps 0-11) + dedicated line-search runs + non_negative_tucker(_hals) with init='svd' on standard-normal data at caps 0/1/5 "
@@ -947,10 +947,14 @@ def corr_mu_cp(rng, tier):
     eps = float(tl.eps(np.float64))
     out = []
     nrun = 12 if tier == "quick" else 60
+    heavy = 0
     for k in range(nrun):
         order = rng.choice([2, 3, 3])
         shape = tuple(rng.randint(2, 3) for _ in range(order))
         rank = rng.choice([1, 2])
+        if tier == "quick" and order == 3 and rank == 2:       # order 3 x rank 2 in exact rationals can cost 6 CPU s: one such run per quick check
+            heavy += 1
+            rank = 2 if heavy == 1 else 1
         klass = rng.choice(["signed", "signed", "nonneg", "sparse", "negative"])
         if klass == "signed":
             X = dy_mat(rng, 1, int(np.prod(shape)), -3, 3).reshape(shape)
@@ -1252,12 +1256,12 @@ def corr_hals_cp(rng, tier):
     its own stopping rule, up to 100 sweeps), executed by the model at the fixed-point carrier"""
     from tensorly.decomposition import non_negative_parafac_hals
     out = []
-    nrun = 4 if tier == "quick" else 14
+    nrun = 4 if tier == "quick" else 12
     for k in range(nrun):
         order = rng.choice([2, 3, 3])
         big = tier != "quick"
         shape = tuple(rng.randint(2, 4 if big else 3) for _ in range(order))
-        rank = rng.choice([1, 2, 2, 3] if big else [1, 2, 2])
+        rank = rng.choice([1, 2, 2, 3]) if big else (2 if k == 0 else 1)       # quick: one rank-2 run (every inner call runs its 100 sweeps, ~4 CPU s), the others rank 1
         klass = rng.choice(["signed", "signed", "nonneg", "negative", "sparse"])
         X = gen_float_tensor(rng, shape, klass)
         Fs = [np.array([[rng.random() + 0.05 for _ in range(rank)] for _ in range(s)]) for s in shape]
@@ -1300,8 +1304,9 @@ def corr_tucker_hals(rng, tier):
         order = rng.choice([2, 3, 3])
         shape = tuple(rng.randint(2, 4 if tier != "quick" else 3) for _ in range(order))
         ranks = [rng.randint(1, min(2, s)) for s in shape]
-        if tier == "quick" and order == 3:
-            ranks[rng.randrange(3)] = 1          # a rank-1 mode stops after 2 inner sweeps, the others run their 100: bounds the cost of a case
+        if tier == "quick":      # a rank-1 mode stops after 2 inner sweeps, a rank-2 mode runs its 100 (~5 CPU s, evaluated twice): exactly one rank-2 mode per quick run
+            j = rng.randrange(order)
+            ranks = [min(2, shape[m_]) if (k == 0 and m_ == j) else 1 for m_ in range(order)]
         klass = rng.choice(["signed", "signed", "nonneg", "negative", "sparse"])
         X = gen_float_tensor(rng, shape, klass)
         Fs = [np.array([[rng.random() + 0.05 for _ in range(r)] for _ in range(s)]) for s, r in zip(shape, ranks)]
@@ -1392,13 +1397,14 @@ def corr_tucker_aset(rng, tier):
     """complete runs of non_negative_tucker_hals(algorithm='active_set'), 0 or 1 outer sweeps, from a user initialisation"""
     from tensorly.decomposition import non_negative_tucker_hals
     out = []
-    nrun = 5 if tier == "quick" else 18
+    nrun = 5 if tier == "quick" else 16
     for k in range(nrun):
         order = rng.choice([2, 3, 3])
         shape = tuple(rng.randint(2, 4 if tier != "quick" else 3) for _ in range(order))
         ranks = [rng.randint(1, min(2, s)) for s in shape]
-        if tier == "quick" and order == 3:
-            ranks[rng.randrange(3)] = 1
+        if tier == "quick":      # as in corr_tucker_hals: exactly one rank-2 mode per quick run
+            j = rng.randrange(order)
+            ranks = [min(2, shape[m_]) if (k == 0 and m_ == j) else 1 for m_ in range(order)]
         klass = rng.choice(["signed", "nonneg", "model", "model", "model"])
         X = gen_float_tensor(rng, shape, klass if klass != "model" else "signed")
         if klass == "model":     # a non-negative Tucker tensor with distinct components plus small signed noise: the HALS factors stay well conditioned
@@ -1690,7 +1696,7 @@ def corr_initialisers(rng, tier):
     from tensorly.decomposition import parafac2
     from tensorly.random import random_cp
     out = []
-    nrun = 6 if tier == "quick" else 40
+    nrun = 6 if tier == "quick" else 30
     for k in range(nrun):
         order = rng.choice([2, 3])
         shape = tuple(rng.randint(2, 4) for _ in range(order))
@@ -1788,7 +1794,7 @@ def corr_parafac2_iter(rng, tier):
     from tensorly.decomposition import _parafac2 as P2
     from tensorly.cp_tensor import cp_normalize
     out = []
-    nrun = 1 if tier == "quick" else 8           # ~13-20 CPU s per case (two fixed-point runs of up to 2 x 3 x 100 inner sweeps); the multi-iteration runs (OP2Run / OP2RunG) cover the same skeleton
+    nrun = 1 if tier == "quick" else 6           # ~13-20 CPU s per case (two fixed-point runs of up to 2 x 3 x 100 inner sweeps); the multi-iteration runs (OP2Run / OP2RunG) cover the same skeleton
     for k in range(nrun):
         I, J, K = rng.randint(2, 3), rng.randint(2, 4), rng.randint(2, 3)
         R = rng.randint(1, min(J, K, 2))
@@ -1950,12 +1956,12 @@ def corr_parafac2_run(rng, tier):
     from tensorly.decomposition import parafac2
     from tensorly.decomposition import _parafac2 as P2
     out = []
-    nrun = 3 if tier == "quick" else 9
+    nrun = 2 if tier == "quick" else 9
     for k in range(nrun):
         I, J, K = rng.randint(2, 3), rng.randint(2, 3), rng.randint(2, 3)
         ls = (k % 3 == 0)
         R = 2 if (tier != "quick" and k == 1) else 1       # rank 2: every inner HALS call runs its 100 sweeps (~20 CPU s per case: one short run per thorough check)
-        n = rng.choice([7, 9]) if ls else (rng.choice([2, 3, 4]) if R == 1 else 2)
+        n = (7 if tier == "quick" else rng.choice([7, 9])) if ls else (rng.choice([2, 3, 4]) if R == 1 else 2)
         slices = [np.array([[rng.gauss(0, 1) for _ in range(K)] for _ in range(J)]) for _ in range(I)]
         if rng.random() < 0.3:
             slices = [np.abs(s_) for s_ in slices]
@@ -2033,7 +2039,7 @@ def corr_parafac2_run_g(rng, tier):
         I, J, K = rng.randint(2, 3), rng.randint(2, 3), rng.randint(2, 3)
         kind = ("user", "none", "own", "user")[k % 4]
         R = 1          # rank 1: the least-squares solves of the undeclared modes are divisions by a positive number (no conditioning issue at any intermediate state); rank 2 solves: corr_hals_cp_undeclared
-        n = rng.choice([7, 9]) if kind != "none" else rng.choice([2, 3, 4])
+        n = (7 if tier == "quick" else rng.choice([7, 9])) if kind != "none" else rng.choice([2, 3, 4])
         nn = rng.choice([[0, 2], [0, 2], [2], [0], [1, 2], [0, 1]])
         if kind == "own":          # single-mode and two-mode lists in turn (the object parafac2 builds must carry exactly these)
             nn = ([2], [0, 2], [0], [1, 2])[(k // 4) % 4]
@@ -2167,7 +2173,7 @@ def corr_hals_cp_undeclared(rng, tier):
     for k in range(nrun):
         order = rng.choice([2, 3, 3])
         shape = tuple(rng.randint(2, 3 if tier == "quick" else 4) for _ in range(order))
-        rank = rng.choice([1, 2])
+        rank = rng.choice([1, 2]) if tier != "quick" else (2 if k == 0 else 1)
         X = gen_float_tensor(rng, shape, rng.choice(["signed", "signed", "nonneg", "sparse"]))
         # columns with distinct dominant rows: the Hadamard Gram matrices stay well conditioned
         Fs = [np.array([[0.3 * rng.random() + 0.05 + (1.0 if i % rank == j else 0.0) for j in range(rank)] for i in range(s)]) for s in shape]
